@@ -90,4 +90,22 @@ Section Commit.
       + destruct (path_eqb_spec h h'); [congruence|reflexivity].
       + destruct (path_eqb_spec k h'); [reflexivity|exact IH].
   Qed.
+
+  (* the write operations of a run come grouped by history, in the order of the list of loaded histories (which lists
+     children before parents): a child's manifest and chain are in place before its parent's manifest is written *)
+  Theorem commit_ops_grouped proc sess sp : forall l cs0,
+    exists ws, cs_ops C (fold_left (commit_one C cdig ser proc sess sp) l cs0) = cs_ops C cs0 ++ concat ws /\
+               Forall2 (fun h w => forall op, In op w -> snd op = lh_root h) l ws.
+  Proof.
+    induction l as [|h l IH]; intros cs0; cbn [fold_left].
+    - exists []. cbn. rewrite app_nil_r. split; [reflexivity|constructor].
+    - destruct (IH (commit_one C cdig ser proc sess sp cs0 h)) as [ws [Hops Hf]].
+      destruct (commit_one_cases proc sess sp cs0 h) as [Hs|_ _ Ho _|nl recs doc _ _ _ _ Ho _ _ _].
+      + exists ([] :: ws). rewrite Hops, Hs. cbn [concat app]. split; [reflexivity|]. constructor; [intros op []|exact Hf].
+      + exists ([] :: ws). rewrite Hops, Ho. cbn [concat app]. split; [reflexivity|]. constructor; [intros op []|exact Hf].
+      + eexists (_ :: ws). rewrite Hops, Ho. cbn [concat]. rewrite <- app_assoc. split; [reflexivity|]. constructor; [|exact Hf].
+        intros op Hin. apply in_app_or in Hin. destruct Hin as [Hin|Hin].
+        * destruct (lh_folder h); [destruct Hin|]. destruct Hin as [<-|[]]. reflexivity.
+        * destruct Hin as [<-|[<-|[]]]; reflexivity.
+  Qed.
 End Commit.
